@@ -507,7 +507,13 @@ func (tdsChan *Channel) SendPackage(ctx context.Context, pkg Package) error {
 }
 
 func (tdsChan *Channel) sendPackets(ctx context.Context, onlyFull bool) error {
-	defer tdsChan.queueTx.DiscardUntilCurrentPosition()
+	if onlyFull {
+		// The packet currently being written to must be kept, even if
+		// it is exhausted - see below.
+		defer tdsChan.queueTx.discardBeforeCurrentPacket()
+	} else {
+		defer tdsChan.queueTx.DiscardUntilCurrentPosition()
+	}
 
 	for i, packet := range tdsChan.queueTx.queue {
 		select {
@@ -517,17 +523,22 @@ func (tdsChan *Channel) sendPackets(ctx context.Context, onlyFull bool) error {
 			return fmt.Errorf("connection context is closed: %w", tdsChan.tdsConn.ctx.Err())
 		default:
 			// Only the last packet should not be full.
-			if i == tdsChan.queueTx.indexPacket && tdsChan.queueTx.indexData < tdsChan.tdsConn.PacketBodySize() {
+			if i == tdsChan.queueTx.indexPacket {
 				if onlyFull {
-					// Packet is not exhausted and only exhausted packets
-					// should be sent. Return.
+					// The packet currently being written to is held
+					// back, even if it is exhausted: it may be the
+					// last packet of the message, which must carry
+					// the EOM status. It is sent once more data has
+					// been written or the message is completed.
 					return nil
 				}
 
-				// Packet is not exhausted but should be sent. Adjust header
-				// length
+				// Last packet of the message. Adjust header length if
+				// the packet is not exhausted and mark the end of the
+				// message.
 				packet.Header.Length = uint16(PacketHeaderSize + tdsChan.queueTx.indexData)
 				packet.Data = packet.Data[:tdsChan.queueTx.indexData]
+				packet.Header.Status |= TDS_BUFSTAT_EOM
 			}
 
 			// TODO maybe check if data is empty - could be an issue
